@@ -46,11 +46,35 @@ const (
 	TxExecInvalid = 6 // ExecuteTransaction answers invalid
 )
 
+// Override lets a test change the scripted outcome of a transaction after it was created (keyed by transaction ID):
+// e.g. a transaction that verified when it entered the pool but fails when the generator verifies it again.
+var (
+	overrideMu sync.Mutex
+	override   = map[string]int{}
+)
+
+func SetOutcomeOverride(id []byte, outcome int) {
+	overrideMu.Lock()
+	override[string(id)] = outcome
+	overrideMu.Unlock()
+}
+
+func ClearOutcomeOverrides() {
+	overrideMu.Lock()
+	override = map[string]int{}
+	overrideMu.Unlock()
+}
+
 func txOutcome(tx *blockchain.Transaction) (int, int) {
 	o, ev := 0, 0
 	if len(tx.Params) > 0 {
 		o = int(tx.Params[0])
 	}
+	overrideMu.Lock()
+	if v, ok := override[string(tx.ID)]; ok {
+		o = v
+	}
+	overrideMu.Unlock()
 	if len(tx.Params) > 1 {
 		ev = int(tx.Params[1] % 4)
 	}
